@@ -105,7 +105,7 @@ func TestC16Controller(t *testing.T) {
 // ---- C10 (promotion clause) ------------------------------------------------------
 
 var c10StackCfg = SGenCfg{RFs: []int{2, 3, 3}, MinOps: 4, MaxOps: 18, FaultPct: 30, Blocks: 8, SlowFaults: true, MaxSlow: 2,
-	W: map[string]int{"write": 50, "readd": 20, "promote": 6, "remove": 6, "nodedrop": 4, "read": 4, "sync": 2, "staleboot": 3}}
+	W: map[string]int{"write": 50, "readd": 10, "readdcycle": 14, "promote": 6, "remove": 6, "nodedrop": 4, "read": 4, "sync": 2, "staleboot": 3}}
 
 // TestC10Promotion — a promoted replica reports the source's count; all RW replicas agree.
 func TestC10Promotion(t *testing.T) {
